@@ -261,7 +261,7 @@ def run(tier, seed):
         consts = {"MaxTok": 4, "Full": "FALSE"} if tier == "quick" else {"MaxTok": 4, "Full": "TRUE"}
         res = engine.run_tlc(work, "MC_C03", constants=consts, invariants=["WriterLaw", "CompleteIsBalanced"], timeout=7200)
         run.add_tlc(res, "DocCore geometry documents (WriterLaw), %s" % consts)
-        res2 = engine.run_tlc(work, "MC_C14", constants={}, invariants=["OneShape"])
+        res2 = engine.run_tlc(work, "MC_C14", constants={}, invariants=["OneShape", "DisplayLaw"])
         run.add_tlc(res2, "DocPaint documents")
         stride = 17 if tier == "quick" else 3
         n = 0
